@@ -77,9 +77,13 @@ type c11Case struct {
 	Tree    *model.Expr `json:"tree"`
 	GroupBy []string    `json:"group_by,omitempty"`
 	Args    [][]any     `json:"args"` // one list per execution
+	Raw     string      `json:"raw,omitempty"`
 }
 
 func (c c11Case) sig() string {
+	if c.Raw != "" {
+		return fmt.Sprintf("raw text=%q args=%v", c.Raw, c.Args)
+	}
 	return fmt.Sprintf("%s text=%q args=%v", c.Kind, c.text(), c.Args)
 }
 
@@ -417,6 +421,67 @@ func c11Worker(ctx *rt.Ctx, job *rt.Job) []*rt.Violation {
 	return vs
 }
 
+// c11RawTexts: placeholder spellings the formatter never produces (leading zeros), with 10 arguments.
+func c11Raw(w *c11World, ctx *rt.Ctx) *rt.Violation {
+	args := []any{"1", "2", "q\"\n", "é", "7", "2", "1", "é", "7", "2"}
+	type raw struct {
+		text string
+		lit  string
+		need int
+	}
+	q := func(i int) string { return `"` + strings.ReplaceAll(fmt.Sprint(args[i-1]), `"`, `""`) + `"` }
+	raws := []raw{
+		{"a = $01", "a = " + q(1), 1},
+		{"a = $010 | b = $08", "a = " + q(10) + " | b = " + q(8), 10},
+		{"a = $09 & ^ b = $0010 ; g", "a = " + q(9) + " & ^ b = " + q(10) + " ; g", 10},
+		{"a = $007 | a = $10", "a = " + q(7) + " | a = " + q(10), 10},
+		{"a = $08", "a = " + q(8), 8},
+	}
+	for _, r := range raws {
+		ctx.Cov.Add("evaluations", 1)
+		ctx.Cov.Add("distinct_nontrivial", 1)
+		want := func() string {
+			rows, err := w.db.Query(r.lit)
+			if err != nil {
+				return "error"
+			}
+			s, _ := scanAll(rows)
+			return s
+		}()
+		for _, path := range []string{"query", "prepared"} {
+			got := func() (out string) {
+				defer func() {
+					if p := recover(); p != nil {
+						out = fmt.Sprintf("panic: %v", p)
+					}
+				}()
+				var rows *sql.Rows
+				var err error
+				if path == "query" {
+					rows, err = w.db.Query(r.text, args[:r.need]...)
+				} else {
+					st, perr := w.db.Prepare(r.text)
+					if perr != nil {
+						return "error: " + perr.Error()
+					}
+					defer st.Close()
+					rows, err = st.Query(args[:r.need]...)
+				}
+				if err != nil {
+					return "error: " + err.Error()
+				}
+				s, _ := scanAll(rows)
+				return s
+			}()
+			if got != want {
+				c := c11Case{Kind: "raw", Args: [][]any{args}, Raw: r.text}
+				return rt.NewViolation("C11", "bind", c.sig(), c, "%s path: %q with its arguments returned %s; the literal query %q returns %s", path, r.text, got, r.lit, want)
+			}
+		}
+	}
+	return nil
+}
+
 func c11Run(ctx *rt.Ctx) []*rt.Violation {
 	var jobs []rt.Job
 	add := func(a c11Args, shards int) {
@@ -434,7 +499,14 @@ func c11Run(ctx *rt.Ctx) []*rt.Violation {
 	}
 	outs := rt.RunJobs(ctx, jobs, rt.SpawnOpt{})
 	vs := rt.Collect(ctx, outs, nil)
-	ctx.Cov.Note("rule", "texts = all trees (depth 1 quick / 2 thorough, arity<=2) over leaves {a=\"1\", a=$1, b=$2, a=$3, b=$1} (repeated, out of order, gaps), with and without a group-by column; argument lists = all lists of length 0..4 over {\"1\",\"2\",quote+newline,é,int 7}; ReplacePlaceholders compared with a reference substitution and its input with a pristine clone; through database/sql every text x list on the direct Query path and the Prepare path, and every sequence (length 2 quick / 3 thorough) of executions of one prepared statement / one handle over all exact-length lists plus two too-short ones: rows must equal the literal query's rows (model), too few arguments must be an error")
+	{
+		w := newC11World(ctx)
+		if v := c11Raw(w, ctx); v != nil {
+			vs = append(vs, v)
+		}
+		w.close()
+	}
+	ctx.Cov.Note("rule", "texts = all trees (depth 1 quick / 2 thorough, arity<=2) over leaves {a=\"1\", a=$1, b=$2, a=$3, b=$1} (repeated, out of order, gaps), with and without a group-by column; argument lists = all lists of length 0..4 over {\"1\",\"2\",quote+newline,é,int 7}; ReplacePlaceholders compared with a reference substitution and its input with a pristine clone; through database/sql every text x list on the direct Query path and the Prepare path, and every sequence (length 2 quick / 3 thorough) of executions of one prepared statement / one handle over all exact-length lists plus two too-short ones: rows must equal the literal query's rows (model), too few arguments must be an error; plus 4 raw texts with leading-zero placeholder numbers ($01, $08, $010, $0010) bound to 10 arguments on both paths")
 	return vs
 }
 
@@ -445,6 +517,9 @@ func c11Replay(ctx *rt.Ctx, v *rt.Violation) *rt.Violation {
 	}
 	w := newC11World(ctx)
 	defer w.close()
+	if c.Raw != "" {
+		return c11Raw(w, ctx)
+	}
 	if m := c11Check(w, c); m != "" {
 		return rt.NewViolation("C11", "bind", c.sig(), c, "%s", m)
 	}
